@@ -1220,6 +1220,12 @@ def C05(ctx):
                         sig = 'deferred_not_reoffered_after_single_step'
                     if dialect_of(ctx.cfg) == 'mp11' and any(c2['op'] == 'RP' and c2['n'] >= 65000 for c2 in ctx.case[:i]):
                         sig = 'mp11_deferred_sequence_counter_wraps'
+                    if dialect_of(ctx.cfg) == 'mp11' and any(r.get('actions') == 'defer' and r['ev'] == tn and nm_ != ctx.spec['root']['name']
+                                                              and not any(s_ in active for s_ in st.machine[nm_]['states'])
+                                                              for nm_, mm in st.machine.items() for r in mm['table']):
+                        # deferred by a Defer row of a substate: stored in the submachine's own pool, stranded there when the
+                        # submachine is exited (dropped at the next entry without history)
+                        sig = 'mp11_action_deferred_in_submachine_stranded_on_exit'
                     fail('C05', 'occurrence #%d (%s) is still pending at a quiescent point although no entered state defers %s (entered: %s)'
                          % (pl, tn, tn, sorted(active)), ctx, i, sig=sig)
                 if pl not in stamp:
@@ -1237,6 +1243,11 @@ def C05(ctx):
                         for pl in pending:
                             if sum(1 for s_ in active if etype[pl] in dfr.get(s_, ())) >= 2:
                                 sig = 'back_event_stored_once_per_deferring_region'
+                    if dialect_of(ctx.cfg) == 'mp11' and n < len(pending):
+                        sub_defer = {r['ev'] for nm_, mm in st.machine.items() if nm_ != ctx.spec['root']['name']
+                                     for r in mm['table'] if r.get('actions') == 'defer'}
+                        if any(etype[pl] in sub_defer for pl in pending):
+                            sig = 'mp11_action_deferred_in_submachine_stranded_on_exit'     # dropped at a later entry of the submachine
                     fail('C05', 'pending count %d but %d occurrences are retained (%s)' % (n, len(pending), pending), ctx, i, sig=sig)
         classes['steps'] += 1
     return dict(nontrivial=nontrivial, classes=classes)
